@@ -520,3 +520,52 @@ def c11k(ctx):
         return k
     per_level += [x for x in sc.walk() if is_call(x, 'SeedTask') and loops_around(x) >= 3]
     ctx.check(bool(per_level), 'SeedConfiguration.seed_tasks:per-level-tasks', 'one seed entry can become several tasks with the same name/cache/grid (one per level)', sc)
+
+
+@rule('C11.l', floor=2)
+def c11l(ctx):
+    """no sub-pyramid is rejected that a coverage reaches: a seed with several coverages asks each of them, in the coordinates the
+    question was put in.  MultiCoverage.intersects / contains only hand (bbox, srs) on to their members -- the rectangle is not compared
+    with anything here (the extent of a MultiCoverage is kept in EPSG:4326; a quick reject against it with a rectangle in the grid SRS
+    throws away nearly every meta tile of a non-geographic grid while the task still completes)"""
+    for m in ('intersects', 'contains'):
+        fn = ctx.fn('mapproxy/util/coverage.py:MultiCoverage.' + m)
+        p_bbox, p_srs = fn.params[1], fn.params[2]
+        bad = []
+        for x in fn.walk():
+            if isinstance(x, ast.Name) and x.id == p_bbox and isinstance(x.ctx, ast.Load):
+                par = getattr(x, '_parent', None)
+                ok = isinstance(par, ast.Call) and isinstance(par.func, ast.Attribute) and par.func.attr in ('intersects', 'contains') and \
+                    len(par.args) == 2 and par.args[0] is x and unparse(par.args[1]) == p_srs
+                if not ok:
+                    bad.append(unparse(par)[:60] if par is not None else x.id)
+        ctx.check(not bad, 'MultiCoverage.%s:rectangle-only-handed-on' % m, 'the rectangle goes to the member coverages together with its SRS, nowhere else', fn,
+                  fail='MultiCoverage.%s uses the rectangle itself (%s): it is in the SRS of the caller, not in the SRS of anything kept here' % (m, '; '.join(bad)))
+
+
+@rule('C11.m', floor=1)
+def c11m(ctx):
+    """every selected tile is created, also with rescaled tiles: a cache that builds tiles from its neighbouring levels
+    (`upscale_tiles` is a negative, `downscale_tiles` a positive `rescale_tiles`) creates exactly the tiles it is asked for, so the
+    seeder walks such a cache tile by tile, not by meta tile -- for *any* non-zero rescale_tiles (with `> 0` the upscaling caches are
+    walked by meta tile and only one tile of each meta tile is made)"""
+    fn = ctx.fn(S + ':seed_task')
+    g = fn.cfg
+    offs = g.find_stmts(lambda s: isinstance(s, ast.Assign) and unparse(s.targets[0]) == 'work_on_metatiles' and const_value(s.value, 1) is False)
+    walker = [x for x in fn.walk() if is_call(x, 'TileWalker')]
+    if not offs:
+        # the flag computed in one expression
+        asg = [s for s in fn.walk() if isinstance(s, ast.Assign) and unparse(s.targets[0]) == 'work_on_metatiles']
+        ok = bool(asg) and all(unparse(fn.canon.expr(s.value)).replace(' ', '') in ('nottask.tile_manager.rescale_tiles', 'task.tile_manager.rescale_tiles==0')
+                               for s in asg)
+    else:
+        def nonzero(at):
+            return at.op is None and unparse(at.expr).endswith('tile_manager.rescale_tiles')
+        zero = lambda at: at.op == '==' and 'rescale_tiles' in at.text and const_value(at.right if 'rescale' in unparse(at.left) else at.left) == 0      # noqa: E731
+        # switched off exactly under "rescale_tiles is not zero": on the truth edge of the plain test (or the false edge of `== 0`), and
+        # left on everywhere else
+        edges = g.guard_edges(nonzero, True) + g.guard_edges(zero, False)
+        ok = all(g.guarded(n, nonzero, True) or g.guarded(n, zero, False) for n in offs) and bool(edges) and \
+            all(any(n in g.reachable(d) for n in offs) for s_, d in edges)
+    ctx.check(ok and bool(walker), 'seed_task:tile-by-tile-for-rescaling-caches', 'work_on_metatiles is switched off for every non-zero rescale_tiles', fn,
+              fail='seed_task walks a rescaling cache by meta tile unless rescale_tiles is positive: an upscaling cache gets one tile per meta tile')
